@@ -31,5 +31,5 @@ for hid, props, rel, f, what in H:
             print(f'[{hid} {pid}] rc={r.returncode} {line[:110]} | {what} | tests: {t[:40]}')
     finally:
         subprocess.run(f'git -C /repo worktree remove --force {wt}', shell=True)
-for g in ('gen.py', 'gen_deps.py', 'gen_files.py', 'gen_units.py'):
+for g in ('gen.py', 'gen_deps.py', 'gen_files.py', 'gen_units.py', 'gen_pumps.py'):
     subprocess.run(f'/venv/bin/python {VERIF}/tools/translate/{g} /repo {VERIF}/coq/Gen', shell=True, capture_output=True)
